@@ -410,9 +410,11 @@ Proof.
   assert (I3 : Inv (upd_top c2 (fun f => set_exit f (Some b')))) by auto with inv.
   destruct br.
   - inversion H; subst; auto.
-  - destruct (top_code_empty _); [inversion H; subst; split; auto with inv|eapply IH; eauto; auto with inv].
+  - assert (I4 : Inv (clear_values (upd_top (upd_top c2 (fun f => set_exit f (Some b'))) (fun f => set_scope (set_pos f 0) ""))))
+      by (apply inv_clear_values, inv_upd_top; [intros f0; reflexivity|exact I3]).
+    destruct (top_code_empty _); [inversion H; subst; split; auto with inv|eapply IH; eauto].
   - inversion H; subst. split; auto with inv.
-  - eapply IH; eauto. auto with inv.
+  - eapply IH; eauto. apply inv_upd_top; [intros f0; destruct b' as [|? [|] ? ?| | | | | | | |]; reflexivity|exact I3].
   - inversion H; subst; auto.
 Qed.
 
